@@ -33,11 +33,13 @@ type JDump struct {
 	IsU   bool      `json:"isuint"` // num/str: decimal uint64 literal
 	U     B         `json:"u"`
 	F32   B         `json:"f32"` // num: float32 bits of the literal (strconv, 32-bit rounding)
+	F32D  B         `json:"f32d"` // num: float32 bits obtained by narrowing the float64 value (double rounding)
+	Src   string    `json:"src,omitempty"` // TLC-made dumps only: which atom to print a number from (i | u | f | f32)
 	E     []JMember `json:"e"`
 }
 
 func jd(k string) JDump {
-	return JDump{K: k, B: B{}, I: be8(0), F: be8(0), FI: be8(0), U: be8(0), F32: B{0, 0, 0, 0}, E: []JMember{}}
+	return JDump{K: k, B: B{}, I: be8(0), F: be8(0), FI: be8(0), U: be8(0), F32: B{0, 0, 0, 0}, F32D: B{0, 0, 0, 0}, E: []JMember{}}
 }
 
 type jparser struct {
@@ -242,6 +244,7 @@ func (j *jparser) num() (JDump, error) {
 	d.F = be8(int64(math.Float64bits(f)))
 	f32, _ := strconv.ParseFloat(lit, 32)
 	d.F32 = be4(math.Float32bits(float32(f32)))
+	d.F32D = be4(math.Float32bits(float32(f)))
 	if isInt {
 		if n, e := strconv.ParseUint(lit, 10, 64); e == nil {
 			d.IsU, d.U = true, be8(int64(n))
